@@ -505,7 +505,8 @@ class Escape:
                         for c in ATTR_RAISES[attr]:
                             out.setdefault((c, "ext@%s:.%s" % (f.qualname, attr)), ("%s %s: .%s() may raise %s" % (loc, f.name, attr, c.split(".")[-1]),))
                         continue
-                    if attr in ATTR_BENIGN and not (attr in OBJECT_VERBS and isinstance(call.func.value, (ast.Subscript, ast.Call))):
+                    if attr in ATTR_BENIGN and not (attr in OBJECT_VERBS and (isinstance(call.func.value, (ast.Subscript, ast.Call)) or
+                                                                              (isinstance(call.func.value, ast.Name) and call.func.value.id in self._user_held_names(f)))):
                         # (an object verb - close, write, set ... - applied to an element of a container or to a call result is not known to be the
                         # socket / event / file the name suggests: `entry[3].close()` on a stream-table entry runs the user's iterator code)
                         if record:
@@ -522,6 +523,33 @@ class Escape:
                 out.setdefault((WILD, "dyn@%s:%s" % (f.qualname, callee_txt)),
                                ("%s %s: call of %s runs user or third-party code" % (loc, f.name, callee_txt),))
         return out
+
+    def _user_held_names(self, f):
+        """locals of f that hold (parts of) entries of the daemon's stream table - the fourth element of such an entry is the user's iterator, so an object verb
+        applied to one of these names (`stream.close()`) is user code, not a socket or an event"""
+        got = getattr(f, "_user_held", None)
+        if got is None:
+            got = set()
+            changed = True
+            while changed:
+                changed = False
+                for n in walk_no_nested(f.node):
+                    src, tgts = None, []
+                    if isinstance(n, ast.Assign):
+                        src, tgts = n.value, n.targets
+                    elif isinstance(n, ast.For):
+                        src, tgts = n.iter, [n.target]
+                    if src is None:
+                        continue
+                    tainted = any((isinstance(x, ast.Attribute) and x.attr == "streaming_responses") or (isinstance(x, ast.Name) and x.id in got) for x in ast.walk(src))
+                    if tainted:
+                        for t in tgts:
+                            for x in ast.walk(t):
+                                if isinstance(x, ast.Name) and x.id not in got:
+                                    got.add(x.id)
+                                    changed = True
+            f._user_held = got
+        return got
 
     def _is_generator(self, fi):
         g = getattr(fi, "_is_gen", None)
